@@ -3,6 +3,7 @@ package pfcpiface
 import (
 	"context"
 	"errors"
+	"net"
 	"os"
 	"testing"
 
@@ -11,6 +12,8 @@ import (
 	p4ConfigV1 "github.com/p4lang/p4runtime/go/p4/config/v1"
 	p4 "github.com/p4lang/p4runtime/go/p4/v1"
 	"google.golang.org/grpc"
+	"google.golang.org/grpc/codes"
+	"google.golang.org/grpc/status"
 )
 
 // A P4Runtime client whose Write fails from the k-th call on (k counted from 0); everything else is
@@ -93,4 +96,93 @@ func newReplaySet(vs ...uint32) set.Set {
 		s.Add(v)
 	}
 	return s
+}
+
+// A P4Runtime client whose Write fails with a bare gRPC status of code Unknown (what a client sees
+// when the server-side handler returns a plain error): no per-entry details.
+type replayUnknownP4 struct {
+	p4.P4RuntimeClient
+}
+
+func (f *replayUnknownP4) Write(ctx context.Context, in *p4.WriteRequest, opts ...grpc.CallOption) (*p4.WriteResponse, error) {
+	return nil, status.Error(codes.Unknown, "switch refused the batch")
+}
+
+// Replay of (*UP4).modifyUP4ForwardingConfiguration/inv-step/C15.modify.l1.reject#2: a table write
+// that fails with code Unknown and no details is converted into an empty P4RuntimeError, the loop
+// over its (zero) statuses finds nothing to complain about, and the failed write is reported as
+// success - the PFCP request would be accepted.
+func TestReplayUnknownWriteErrorAccepted(t *testing.T) {
+	up4, _ := replayUP4(t, 0)
+	up4.p4client.client = &replayUnknownP4{}
+	up4.accessIP = &net.IPNet{IP: net.IPv4(198, 18, 0, 1).To4(), Mask: net.CIDRMask(32, 32)}
+	p := pdr{srcIface: core, ueAddress: 0x0a000001, fseID: 1, pdrID: 1, farID: 1, srcIfaceMask: 0xff}
+	f := far{farID: 1, fseID: 1, applyAction: ActionDrop}
+	err := up4.modifyUP4ForwardingConfiguration([]pdr{p}, []far{f}, nil, p4.Update_INSERT)
+	if err == nil {
+		t.Errorf("a table write that failed with gRPC code Unknown (no details) was reported as success")
+	}
+}
+
+// Replay of (*UP4).sendDelete/post/C15.delete.keep#1.1: a session deletion whose table delete fails
+// is rejected (the session stays live), but its counter cells have already been put back into the
+// pool - the next session gets a counter cell that the live session still uses.
+func TestReplayRejectedDeleteFreesCounters(t *testing.T) {
+	up4, fake := replayUP4(t, 1<<30)
+	up4.accessIP = &net.IPNet{IP: net.IPv4(198, 18, 0, 1).To4(), Mask: net.CIDRMask(32, 32)}
+	// drain the pool down to one known cell so that the outcome does not depend on Pop's choice
+	pool := up4.counters[preQosCounterID].counterIDsPool
+	for pool.Cardinality() > 0 {
+		pool.Pop()
+	}
+	pool.Add(uint64(5))
+	rules := PacketForwardingRules{
+		pdrs: []pdr{{srcIface: core, ueAddress: 0x0a000001, fseID: 1, pdrID: 1, farID: 1, srcIfaceMask: 0xff}},
+		fars: []far{{farID: 1, fseID: 1, applyAction: ActionDrop}},
+	}
+	if err := up4.sendCreate(rules, rules); err != nil {
+		t.Fatal(err)
+	}
+	if rules.pdrs[0].ctrID != 5 || pool.Cardinality() != 0 {
+		t.Fatalf("setup: counter %d, pool %v", rules.pdrs[0].ctrID, pool)
+	}
+	fake.failFrom = 0 // every further write fails
+	if err := up4.sendDelete(rules); err == nil {
+		t.Fatal("the injected write failure was not reported")
+	}
+	if pool.Contains(uint64(5)) {
+		t.Errorf("the deletion was rejected, yet counter cell 5 of the still-live session is free again: %v", pool)
+	}
+}
+
+type replayEmptyRead struct {
+	grpc.ClientStream
+}
+
+func (replayEmptyRead) Recv() (*p4.ReadResponse, error) { return &p4.ReadResponse{}, nil }
+
+func (f *replayFailingP4) Read(ctx context.Context, in *p4.ReadRequest, opts ...grpc.CallOption) (p4.P4Runtime_ReadClient, error) {
+	return replayEmptyRead{}, nil
+}
+
+// Replay of the KNOWN FINDING (*UP4).clearDatapathState/post/C15.clear.inv#1.3: clearing the
+// datapath state (first connection, or every reconnection with clear_state_on_restart) refills the
+// meter cell pools, but the plug-in keeps its map of configured meters - and the PFCP sessions keep
+// their counter cells. Cells of live sessions are free again and are handed to the next session;
+// deleting the old session later frees them a second time.
+func TestReplayClearKeepsMeterBookkeeping(t *testing.T) {
+	up4, _ := replayUP4(t, 1<<30)
+	up4.accessIP = &net.IPNet{IP: net.IPv4(198, 18, 0, 1).To4(), Mask: net.CIDRMask(32, 32)}
+	up4.ueIPPool = &net.IPNet{IP: net.IPv4(10, 250, 0, 0).To4(), Mask: net.CIDRMask(16, 32)}
+	live, err := up4.configureSessionMeter(qer{qerID: 1, fseID: 1, ulMbr: 1000, dlMbr: 1000})
+	if err != nil {
+		t.Fatal(err)
+	}
+	up4.meters[meterID{qerID: 1, fseid: 1}] = live
+	if err := up4.clearDatapathState(); err != nil {
+		t.Fatal(err)
+	}
+	if _, still := up4.meters[meterID{qerID: 1, fseid: 1}]; still && up4.sessMeterCellIDsPool.Contains(live.uplinkCellID) {
+		t.Errorf("after clearDatapathState the meter of session 1 is still configured (%v) but its cell %d is free again", live, live.uplinkCellID)
+	}
 }
